@@ -2,9 +2,9 @@ import Hive.Model.DerivedCounter
 /-!
 # The probing loop of `evictionState.evict` on a fixed-width slot type
 
-`evLoop` (repaired code: `if i == slot { break }` at the end of the body) terminates for every slot of the type and
-probes exactly the slots `start … slot`; `evLoopOld` (the loop as it was) does the same below the top of the type and
-never leaves the loop when `slot` is the largest value of the type.
+Witnesses about the probing loop `evict` had before it was replaced by collecting the registered slots: `evLoopOld`
+(the loop as it was) never leaves the loop when `slot` is the largest value of the type; `evLoop` (first repair 4972df2:
+`if i == slot { break }`) terminates for every slot of the type and probes exactly `start … slot`.
 -/
 namespace Hive.Derived
 
@@ -81,27 +81,5 @@ theorem evLoopOld_top_never_exits (top : Nat) (events : List Nat) :
     unfold evLoopOld
     rw [if_pos hi]
     exact ih _ _ (evNext_le top i hi)
-
-/-- On slots of the type, the step with the literal loop is the step of the abstract model. -/
-theorem EV.stepW_eq (top : Nat) (s : EV) (op : EVOp) (h : ∀ slot, op = .evict slot → slot ≤ top) :
-    s.stepW top op = s.step op := by
-  cases op with
-  | event slot => rfl
-  | evict slot =>
-    have hs := h slot rfl
-    unfold EV.stepW EV.step
-    by_cases hev : s.evicted slot = true
-    · simp [hev]
-    · simp only [hev, Bool.false_eq_true, if_false]
-      cases hl : s.last with
-      | none =>
-        simp only []
-        rw [evLoop_spec top s.events slot hs (slot + 1 - 0) 0 [] (by omega) (by omega)]
-        simp
-      | some l =>
-        have hlt : l < slot := by simp [EV.evicted, hl] at hev; omega
-        simp only []
-        rw [evLoop_spec top s.events slot hs (slot + 1 - (l + 1)) (l + 1) [] (by omega) (by omega)]
-        simp
 
 end Hive.Derived
